@@ -264,3 +264,204 @@ Proof.
 Qed.
 
 End Values.
+
+(* ------------------------------------------------------------------ *)
+(* D/E. the binary64 instance                                          *)
+(* ------------------------------------------------------------------ *)
+
+Lemma sorted_strong {A : palg} (l : list (P A)) :
+  Forall (fun p => okb p = true) l -> Sorted (fun a b : P A => ple b a = true) l ->
+  StronglySorted (fun a b : P A => ple b a = true) l.
+Proof.
+  induction l as [|a l IH]; intros Hok Hs; [constructor|].
+  inversion Hok as [|? ? Ha Hl]; subst. inversion Hs as [|? ? Hsl Hhd]; subst.
+  pose proof (IH Hl Hsl) as Hss. constructor; [assumption|].
+  destruct l as [|b l']; [constructor|]. inversion Hhd as [|? ? Hba]; subst. inversion Hss as [|? ? _ Hall]; subst.
+  inversion Hl as [|? ? Hb Hl']; subst. constructor; [assumption|].
+  rewrite Forall_forall in *. intros c Hc. apply (ple_trans A c b a); auto.
+Qed.
+
+Lemma sorted_map_snd (l : list (TextFile.str * float)) :
+  Sorted prob_desc l -> Sorted (fun a b : P F64 => @ple F64 b a = true) (map snd l).
+Proof.
+  induction 1 as [|x l Hs IH Hhd]; simpl; [constructor|]. constructor; [assumption|].
+  destruct l as [|y l']; simpl; constructor. inversion Hhd; subst. assumption.
+Qed.
+
+Definition nilb {X} (l : list X) : bool := match l with [] => true | _ => false end.
+
+Section Final.
+Variable E : env.
+Hypothesis HE : env_ok E.
+Variable io : fileio.
+Hypothesis HIO : io_env_ok E io.
+
+(* the computable sanity check of the float arithmetic on the pipeline's own values *)
+Definition f64_arith_ok (tr : trained F64) : bool :=
+  negb (PrimFloat.eqb (t_cov tr) 0%float) &&
+  forallb (fun nc => nilb (snd nc) || f64_wf_hyps (@of_counts FNum (snd nc))) (term_counters (t_counters tr)) &&
+  f64_wf_hyps (base_counter RF tr) &&
+  negb (PrimFloat.eqb (skip_total (1%float : P F64) PrimFloat.sub (base_file RF tr)) 0%float) &&
+  forallb (fun b : P F64 * list TextFile.str => okbF (fst b)) (loaded_bases RF E tr).
+
+Lemma arith_parts tr : f64_arith_ok tr = true ->
+  PrimFloat.eqb (t_cov tr) 0%float = false /\
+  (forall name cnt, In (name, cnt) (term_counters (t_counters tr)) -> cnt <> [] -> f64_wf_hyps (@of_counts FNum cnt) = true) /\
+  f64_wf_hyps (base_counter RF tr) = true /\
+  no_zero_div RF tr /\
+  (forall b, In b (loaded_bases RF E tr) -> okbF (fst b) = true).
+Proof.
+  unfold f64_arith_ok. rewrite !andb_true_iff, !negb_true_iff, !forallb_forall. intros ((((H1 & H2) & H3) & H4) & H5).
+  split; [assumption|]. split; [|split; [assumption|split; [exact H4|exact H5]]].
+  intros name cnt Hin Hne. specialize (H2 _ Hin). cbn [snd] in H2. destruct cnt; [congruence|exact H2].
+Qed.
+
+Lemma unitbF_okbF p : unitbF p = true -> okbF p = true.
+Proof. exact (unit_ok F64 p). Qed.
+
+(* D1: the lines of every terminal file can be written and read back *)
+Lemma term_lines_ok (o : options F64) raw rs :
+  Forall (fun r => parsed_ok E r /\ origin E raw r) rs -> Forall (fun p => forallb (f_encb io) p = true) raw ->
+  f64_arith_ok (trained_of E o raw rs) = true ->
+  forall name cnt, In (name, cnt) (term_counters (counters_of rs)) ->
+  Forall (line_ok io) (calc_probs (@of_counts FNum cnt)).
+Proof.
+  intros Hrs Henc Har name cnt Hin. destruct (arith_parts _ Har) as (_ & Hc & _). apply Forall_forall. intros [k p] Hkp.
+  assert (Hk : In k (map fst cnt)).
+  { assert (Hk' : In k (map fst (calc_probs (@of_counts FNum cnt)))) by (apply in_map_iff; now exists (k, p)).
+    apply (proj1 (calc_probs_keys_in FNum _ _)) in Hk'. unfold of_counts in Hk'. rewrite map_map in Hk'. exact Hk'. }
+  destruct (found_value E raw rs Hrs name cnt k Hin Hk) as (pw & Hpw & Hacc & Hv).
+  rewrite Forall_forall in Henc.
+  destruct (value_ok E HE io HIO pw k Hacc (Henc pw Hpw) Hv) as (Hs & He).
+  split; [exact Hs|]. split; [exact He|]. cbn [snd].
+  assert (Hne : cnt <> []) by (intros ->; exact Hk).
+  destruct (f64_wf_hyps_ok _ (Hc name cnt Hin Hne)) as (_ & Hu). rewrite Forall_forall in Hu.
+  apply unitbF_okbF. exact (Hu (k, p) Hkp).
+Qed.
+
+(* D2: Grammar/grammar.txt *)
+Lemma digit_safe c : is_digit c = true -> LB c || N.eqb TAB c = false.
+Proof.
+  intros H. rewrite (digit_LB c H). unfold is_digit in H. apply andb_true_iff in H. destruct H as (H1 & _).
+  apply N.leb_le in H1. cbn [orb]. apply (proj2 (N.eqb_neq TAB c)). unfold TAB. lia.
+Qed.
+
+Lemma digits_safe s : forallb is_digit s = true -> safe s = true.
+Proof.
+  intros H. unfold safe, safe_value, none_of. apply forallb_forall. intros c Hc. rewrite forallb_forall in H.
+  now rewrite (digit_safe c (H c Hc)).
+Qed.
+
+Lemma label_safe l : label_nonneg l -> safe (label_str l) = true.
+Proof.
+  assert (Hcons : forall c s, LB c || N.eqb TAB c = false -> safe s = true -> safe (c :: s) = true).
+  { intros c s Hc Hs. unfold safe, safe_value in *. rewrite none_of_cons. cbv beta. now rewrite Hc, Hs. }
+  destruct l; intros Hn; try reflexivity; cbn [label_str]; (apply Hcons; [reflexivity|apply digits_safe; apply dec_of_Z_digits; exact Hn]).
+Qed.
+
+Lemma concat_safe ls : Forall (fun s => safe s = true) ls -> safe (concat ls) = true.
+Proof.
+  induction 1 as [|s ls Hs _ IH]; [reflexivity|]. simpl. unfold safe, safe_value in *. now rewrite none_of_app, Hs, IH.
+Qed.
+
+Lemma base_lines_ok (o : options F64) raw rs :
+  Forall (parsed_ok E) rs -> f64_arith_ok (trained_of E o raw rs) = true ->
+  Forall (fun it : TextFile.str * float => safe (fst it) = true /\ okbF (snd it) = true) (base_file RF (trained_of E o raw rs)).
+Proof.
+  intros Hrs Har. destruct (arith_parts _ Har) as (_ & _ & Hb & _). destruct (f64_wf_hyps_ok _ Hb) as (_ & Hu).
+  apply Forall_forall. intros [k p] Hkp. cbn [fst snd]. split.
+  - assert (Hk : In k (map fst (base_file RF (trained_of E o raw rs)))) by (apply in_map_iff; now exists (k, p)).
+    destruct (base_file_keys RF E o raw rs k Hk) as [->|(r & Hr & _ & ->)]; [reflexivity|].
+    unfold structure_of, structure. apply concat_safe. apply Forall_forall. intros s Hs. apply in_map_iff in Hs.
+    destruct Hs as (l & <- & Hl). apply label_safe. rewrite Forall_forall in Hrs.
+    pose proof (base_nonneg E r (Hrs r Hr)) as Hnn. rewrite Forall_forall in Hnn. now apply Hnn.
+  - apply unitbF_okbF. rewrite Forall_forall in Hu. exact (Hu (k, p) Hkp).
+Qed.
+
+(* the real disk stage = the ideal one on a trained ruleset *)
+Theorem load_real_is_ideal (o : options F64) raw rs :
+  Forall (fun r => parsed_ok E r /\ origin E raw r) rs -> Forall (fun p => forallb (f_encb io) p = true) raw ->
+  f64_arith_ok (trained_of E o raw rs) = true ->
+  load RF E (disk_F64 io) (disk_base_F64 io) (save RF (trained_of E o raw rs)) =
+  load RF E (disk_ideal RF) (@disk_base_ideal F64) (save RF (trained_of E o raw rs)).
+Proof.
+  intros Hrs Henc Har. apply load_ext.
+  - intros sec letter names dir f lines Hsec Hn Hd _ Hl.
+    destruct (saved_lookup RF (trained_of E o raw rs) sec letter names dir f lines Hsec Hn Hd Hl) as (name & cnt & Hin & ->).
+    apply (disk_F64_is_ideal io _ (ie_io E io HIO)). exact (term_lines_ok o raw rs Hrs Henc Har name cnt Hin).
+  - intros lines Hl. rewrite lookup_grammar in Hl. injection Hl as <-.
+    apply (disk_base_F64_is_ideal io _ (ie_io E io HIO)). apply base_lines_ok; [|assumption].
+    eapply Forall_impl; [|exact Hrs]. intros r (H & _). exact H.
+Qed.
+
+Lemma vars_of_Forall2 (g : grammar F64) : forall names vs, vars_of g names = Some vs ->
+  Forall2 (fun n v => var_of g n = Some v) names vs.
+Proof.
+  induction names as [|n names IH]; intros vs H; simpl in H; [injection H as <-; constructor|].
+  destruct (var_of g n) as [v|] eqn:Ev; [|discriminate]. destruct (vars_of g names) as [vs'|]; [|discriminate].
+  injection H as <-. constructor; [assumption|now apply IH].
+Qed.
+
+(* E: the loaded ruleset is well formed *)
+Theorem loaded_wf_F64 (o : options F64) raw rs bl :
+  Forall (parsed_ok E) rs -> f64_arith_ok (trained_of E o raw rs) = true ->
+  Forall2 (fun b x => bprob x = fst b /\ vars_of (grammar_of RF (counters_of rs)) (snd b) = Some (brepl x))
+          (loaded_bases RF E (trained_of E o raw rs)) bl ->
+  @wf F64 {| tbl := map (fun e => map snd (snd e)) (grammar_of RF (counters_of rs)); bases := bl |}.
+Proof.
+  intros Hrs Har HF. destruct (arith_parts _ Har) as (_ & Hc & _ & _ & Hb).
+  pose proof (loaded_bases_names RF E HE o raw rs Hrs) as Hnames.
+  set (T := map (fun e : TextFile.str * list (list TextFile.str * P F64) => map snd (snd e)) (grammar_of RF (counters_of rs))).
+  assert (Hgoal : Forall (fun b : bstruct F64 => okb (bprob b) = true /\
+                            Forall (fun v => @wf_groups F64 (nth v T [])) (brepl b)) bl).
+  2:{ exact Hgoal. }
+  revert Hnames Hb. induction HF as [|b x bs bl' (Hp & Hv) _ IH]; intros Hnames Hb; [constructor|].
+  inversion Hnames as [|? ? Hnb Hnbs]; subst. constructor; [|apply IH; [assumption|intros b' Hb'; apply Hb; now right]].
+  split; [rewrite Hp; apply (Hb b); now left|].
+  pose proof (vars_of_Forall2 _ _ _ Hv) as HV. clear Hv Hp.
+  induction HV as [|n v ns vs Hnv _ IHV]; [constructor|]. inversion Hnb as [|? ? (items & Hne & Hin) Hns]; subst.
+  constructor; [|now apply IHV].
+  destruct (loaded_var_groups RF rs [] n (Counters.tally items) v Hin Hnv) as (Hg & _).
+  change (nth v T [] = map snd (groups_of RF (Counters.tally items))) in Hg.
+  rewrite Hg. unfold groups_of.
+  assert (Hcne : Counters.tally items <> []).
+  { intros Hnil. destruct items as [|i items']; [congruence|].
+    assert (In i (map fst (Counters.tally (i :: items')))) by (apply tally_keys_in; now left). rewrite Hnil in H. exact H. }
+  destruct (f64_wf_hyps_ok _ (Hc n _ Hin Hcne)) as (Hs & Hu).
+  apply (wf_groups_lines RF).
+  - intros Hnil. destruct items as [|i items']; [congruence|].
+    assert (Hk : In i (map fst (calc_probs (@of_counts (ops_of RF) (Counters.tally (i :: items')))))).
+    { apply (proj2 (calc_probs_keys_in (ops_of RF) _ _)). unfold of_counts. rewrite map_map. cbn [fst].
+      apply tally_keys_in. now left. }
+    rewrite Hnil in Hk. exact Hk.
+  - apply sorted_strong; [|now apply sorted_map_snd].
+    apply Forall_forall. intros p Hp. apply in_map_iff in Hp. destruct Hp as (kv & <- & Hkv).
+    rewrite Forall_forall in Hu. apply unitbF_okbF. now apply Hu.
+  - apply Forall_forall. intros p Hp. apply in_map_iff in Hp. destruct Hp as (kv & <- & Hkv).
+    rewrite Forall_forall in Hu. now apply Hu.
+Qed.
+
+(* ------------------------------------------------------------------ *)
+(* C03 for the code's own arithmetic and file format                   *)
+(* ------------------------------------------------------------------ *)
+
+Theorem C03_reproduced_F64 (o : options F64) raw tr pw :
+  train E o raw = Some tr -> In pw raw -> accepted_pw E pw = true -> supported_pw E o raw pw = true ->
+  case_ok_pw E pw -> Forall (fun p => forallb (f_encb io) p = true) raw -> f64_arith_ok tr = true ->
+  exists L, pipeline_F64 E io o raw = Some L /\
+    forall pop, pop_ok_okb pop ->
+      (exists it, In it (session pop L) /\ exists out k, guesses_of RF E L it = Some (out, k) /\ In pw out) /\
+      In pw (printed RF E pop L).
+Proof.
+  intros Htr Hin Hacc Hsup Hcase Henc Har.
+  destruct (train_origin E HE F64 o raw tr Htr) as (rs & Etr & Hrs).
+  assert (Hrs' : Forall (parsed_ok E) rs) by (eapply Forall_impl; [|exact Hrs]; intros r (H & _); exact H).
+  subst tr. destruct (arith_parts _ Har) as (Hcov & _ & _ & Hz & _).
+  destruct (reproduced_emitted RF E HE o raw _ pw Htr Hin Hacc Hsup Hcase Hcov Hz) as (L & HL & Hrun).
+  exists L. split.
+  - unfold pipeline_F64, pipeline. rewrite Htr. rewrite (load_real_is_ideal o raw rs Hrs Henc Har). exact HL.
+  - apply Hrun. destruct (load_saved RF E HE o raw rs Hrs' Hz) as (bl & Hload & HF).
+    rewrite Hload in HL. injection HL as <-. cbn [l_rs]. now apply (loaded_wf_F64 o raw rs bl Hrs' Har).
+Qed.
+
+End Final.
